@@ -15,7 +15,7 @@
    indices); every theorem quantifies over all oracles.  A `Raise`/`Stuck` outcome
    is not a returned set and nothing is claimed about it (as the property says).
    target_overhead is a rational num/den compared exactly (the code compares floats). *)
-From Coq Require Import Lia.
+From Coq Require Import Lia QArith.
 From Ctg Require Import Base Net BaseFacts NetFacts SlicerCosts SlicerFacts.
 Local Open Scope Z_scope.
 
@@ -134,6 +134,37 @@ Theorem C07_search_prediction_real : forall n sl0 t ao ts tov tsl oracles k c,
 Proof. exact search_prediction_real. Qed.
 Print Assumptions C07_search_prediction_real.
 
+(* search(..., target_size=, target_overhead=, target_slices=): the per-call arguments go to
+   BOTH the trials and best (each resolves them with _maybe_default: a given argument wins over
+   the construction-time attribute), and the cache of the object persists across calls.  For
+   every call, after any earlier calls (any cache_ok cache), and every oracle: the returned set
+   satisfies the targets OF THE CALL, its prediction is real, forbidden indices are absent. *)
+Theorem C07_search_call_meets_call_targets : forall fd ots otov otsl oracles ch ch' k c, cache_ok fd ch ->
+  search_call fd ots otov otsl oracles ch = Ret (ch', (k, c)) ->
+  cache_ok fd ch' /\ entry_ok fd (k, c) /\ call_targets_hold fd ots otov otsl c /\
+  (exists xs, remove_seq xs (f_cost0 fd) = Some c /\ (forall j, In j k <-> In j xs) /\
+              forall j, In j xs -> ~ In j (f_forbidden fd)).
+Proof. exact search_call_spec. Qed.
+Print Assumptions C07_search_call_meets_call_targets.
+
+Theorem C07_search_call_prediction_real : forall n sl0 t ao ts tov tsl ots otov otsl oracles ch ch' k c,
+  tree_ok n sl0 t -> sd_pos (szd n) -> NoDup (zd_keys (szd n)) ->
+  let fd := finder_of_tree n sl0 t ao ts tov tsl in
+  cache_ok fd ch ->
+  search_call fd ots otov otsl oracles ch = Ret (ch', (k, c)) ->
+  cache_ok fd ch' /\
+  exists xs, (forall j, In j k <-> In j xs) /\ NoDup xs /\
+    let sl := sl0 ++ slice_all xs in
+    c_nsl c * multiplicity n sl0 = multiplicity n sl /\
+    cc_total_flops c * multiplicity n sl0 = total_flops n sl t /\
+    match cc_size c with Some s => s | None => 0 end = max_size n sl t /\
+    c_orig c = sum_flops n sl0 t /\
+    call_targets_hold fd ots otov otsl c /\
+    (forall j, In j xs -> ~ In j (removed sl0) /\ In j (zd_keys (szd n)) /\
+       (ao = AoFalse -> ~ In j (output n)) /\ (ao = AoOnly -> In j (output n))).
+Proof. exact search_call_prediction_real. Qed.
+Print Assumptions C07_search_call_prediction_real.
+
 Theorem C07_tree_ok_from_root : forall n sl t, NoDup (output n) ->
   incl (lkeys (root_legs n sl)) (lkeys (involved n sl t)) -> tree_ok n sl t.
 Proof. exact tree_ok_from_root. Qed.
@@ -145,6 +176,73 @@ Theorem C07_hypotheses_checker_sound : forall n sl t, hyps_b n sl t = true ->
   tree_ok n sl t /\ sd_pos (szd n) /\ NoDup (zd_keys (szd n)).
 Proof. exact hyps_b_sound. Qed.
 Print Assumptions C07_hypotheses_checker_sound.
+
+(* TERMINATION.  trial_g is the same loop driven by a choice function (iteration, key,
+   cost) -> index with fuel; the list-oracle trial is its instance for the positional
+   choice function.  With fuel = |size_dict| the loop never runs out of fuel: every
+   iteration returns, raises, or accepts an index and thereby deletes one key (also on a
+   cache hit); the next evaluation of max() on an empty dict raises ValueError.  If the
+   choice function always names a key of the current cost.size_dict -- which is all that
+   `max(cost.size_dict, key=...)` guarantees -- the model's E_ORACLE outcome is impossible
+   too, so the outcome is a return or one of the three Python exceptions. *)
+Theorem C07_trial_is_choice_function_loop : forall fd l ch,
+  trial fd l ch = trial_g fd (fun i _ _ => nth i l 0%nat) (length l) ch.
+Proof. exact trial_is_g. Qed.
+Print Assumptions C07_trial_is_choice_function_loop.
+
+Theorem C07_trial_terminates : forall fd choose fuel ch, Inv (f_cost0 fd) -> cache_ok fd ch ->
+  (length (c_sd (f_cost0 fd)) <= fuel)%nat ->
+  trial_g fd choose fuel ch <> Stuck /\
+  (picks_candidates choose -> trial_g fd choose fuel ch <> Raise E_ORACLE).
+Proof. exact trial_g_terminates. Qed.
+Print Assumptions C07_trial_terminates.
+
+Theorem C07_trial_terminates_tree : forall n sl0 t ao ts tov tsl choose ch,
+  tree_ok n sl0 t -> sd_pos (szd n) -> NoDup (zd_keys (szd n)) ->
+  let fd := finder_of_tree n sl0 t ao ts tov tsl in
+  cache_ok fd ch ->
+  trial_g fd choose (length (szd n)) ch <> Stuck /\
+  (picks_candidates choose -> trial_g fd choose (length (szd n)) ch <> Raise E_ORACLE).
+Proof. exact trial_terminates_tree. Qed.
+Print Assumptions C07_trial_terminates_tree.
+
+Theorem C07_trial_never_stuck : forall fd oracle ch, Inv (f_cost0 fd) -> cache_ok fd ch ->
+  (length (c_sd (f_cost0 fd)) <= length oracle)%nat -> trial fd oracle ch <> Stuck.
+Proof. exact trial_never_stuck. Qed.
+Print Assumptions C07_trial_never_stuck.
+
+(* the executable cross-check scratch_b (evaluated on every cache entry of every replayed
+   search) is sound: success means the table and the predictions are the tree's *)
+Theorem C07_scratch_checker_sound : forall n sl0 t xs c, (forall j, 0 < zget j (szd n)) ->
+  scratch_b n sl0 t (xs, c) = true ->
+  let sl := sl0 ++ slice_all xs in
+  c_tab c = tree_rows n sl t /\
+  c_nsl c * multiplicity n sl0 = multiplicity n sl /\
+  cc_total_flops c * multiplicity n sl0 = total_flops n sl t /\
+  match cc_size c with Some s => s | None => 0 end = max_size n sl t /\
+  c_orig c = sum_flops n sl0 t /\
+  forall j, In j (zd_keys (c_sd c)) ->
+    zd_get0 j (c_fred c) = fred_def (c_sd c) (tree_rows n sl t) j /\
+    zd_get0 j (c_wred c) = wred_def (c_sd c) (tree_rows n sl t) j.
+Proof. exact scratch_b_sound. Qed.
+Print Assumptions C07_scratch_checker_sound.
+
+(* target_overhead: the code compares the FLOAT quotient total_flops / original_flops with the
+   float target; the model compares exact rationals.  fdiv a b stands for Python's float(a / b)
+   as a rational; the two assumed facts are that rounding is monotone w.r.t. a representable
+   bound (fdiv_below) and that int / int is correctly rounded, i.e. has relative error at most
+   2^-53 for operands in [1, 2^1000) (fdiv_err).  Whenever the executable side condition
+   over_safe_b holds -- it is evaluated inside Coq for every cost object of every replayed
+   search that has a target_overhead -- the float test `overhead > target` and the model's
+   over_gt give the same answer (hence also `overhead <= target` in best / already_satisfied). *)
+Theorem C07_overhead_float_agrees : forall fdiv : Z -> Z -> Q,
+  (forall (a b : Z) (tf : Q), (1 <= b)%Z -> (quot a b <= tf)%Q -> (fdiv a b <= tf)%Q) ->
+  (forall a b : Z, (1 <= a < FB)%Z -> (1 <= b < FB)%Z -> (quot a b * (1 - (1 # P53)) <= fdiv a b)%Q) ->
+  forall (c : costs) (num den : Z), over_safe_b c (num, den) = true ->
+  let tf := quot num den in
+  ((tf < fdiv (cc_total_flops c) (c_orig c))%Q <-> over_gt c (num, den) = true).
+Proof. exact over_float_agrees. Qed.
+Print Assumptions C07_overhead_float_agrees.
 
 (* utils.MaxCounter: add / discard keep the cached maximum equal to the maximum *)
 Theorem C07_maxcounter_add : forall x m f, mc_inv m f ->
@@ -186,3 +284,47 @@ Proof. vm_compute. repeat split; reflexivity. Qed.
 Example C07_nonvacuous_forbidden :
   search (finder_of_tree ex_n [] ex_t AoFalse (Some 1%Z) None None) [[0]] = Raise E_FORBIDDEN.
 Proof. vm_compute. reflexivity. Qed.
+
+(* termination is not vacuous: a choice function that always names a key of the current
+   dict exists, and with fuel |size_dict| = 4 the trial for an unreachable target_size
+   slices everything it may and ends in ValueError(max of empty) *)
+Example C07_nonvacuous_termination :
+  picks_candidates first_key_choice /\
+  obs_outcome obs_pred (match trial_g (finder_of_tree ex_n [] ex_t AoTrue (Some 0%Z) None None) first_key_choice 4
+                                      (cache0 (finder_of_tree ex_n [] ex_t AoTrue (Some 0%Z) None None)) with
+                        | Ret (_, r) => Ret r | Raise k => Raise k | Stuck => Stuck end)
+  = (E_MAX_EMPTY, None)
+  /\ obs_outcome obs_pred (match trial_g (finder_of_tree ex_n [] ex_t AoTrue (Some 4%Z) None None) first_key_choice 4
+                                      (cache0 (finder_of_tree ex_n [] ex_t AoTrue (Some 4%Z) None None)) with
+                        | Ret (_, r) => Ret r | Raise k => Raise k | Stuck => Stuck end)
+  = (0, Some ([0; 1], (Some 2%Z, (72%Z, 6%Z)))).
+Proof. split; [exact first_key_picks_candidates|]. split; vm_compute; reflexivity. Qed.
+
+(* the overhead side condition is satisfiable, also for a non-dyadic decimal target (1.1 as the
+   exact value of its float): the trial slices 1, 0, 2 at overhead 1, the next index would double
+   the cost (overhead 2 > target), so the search returns {0,1,2}; all five compared cost objects
+   satisfy over_safe_b *)
+Example C07_nonvacuous_overhead :
+  search_over_safe_b (finder_of_tree ex_n [] ex_t AoTrue None (Some (3%Z, 2%Z)) None) [[1; 0; 2; 3]] = true
+  /\ search_over_safe_b (finder_of_tree ex_n [] ex_t AoTrue None
+                           (Some (2476979795053773%Z, 2251799813685248%Z)) None) [[1; 0; 2; 3]] = true
+  /\ obs_outcome obs_pred (search (finder_of_tree ex_n [] ex_t AoTrue None
+                           (Some (2476979795053773%Z, 2251799813685248%Z)) None) [[1; 0; 2; 3]])
+     = (0, Some ([0; 1; 2], (Some 1%Z, (72%Z, 12%Z)))).
+Proof. repeat split; vm_compute; reflexivity. Qed.
+
+(* per-call overrides are not vacuous: constructed with target_size = 12 (already met by the
+   unsliced tree), search(target_size = 2) slices down to size 2 and returns that set, not the
+   empty slicing that only meets the construction-time target *)
+Example C07_nonvacuous_override :
+  match search_call (finder_of_tree ex_n [] ex_t AoTrue (Some 12%Z) None None) (Some 2%Z) None None
+                    [[1; 0]] (cache0 (finder_of_tree ex_n [] ex_t AoTrue (Some 12%Z) None None)) with
+  | Ret (_, (k, c)) => k = [0; 1] /\ cc_size c = Some 2%Z
+  | _ => False
+  end
+  /\ match search_call (finder_of_tree ex_n [] ex_t AoTrue (Some 12%Z) None None) None None None
+                    [[1; 0]] (cache0 (finder_of_tree ex_n [] ex_t AoTrue (Some 12%Z) None None)) with
+  | Ret (_, (k, c)) => k = [] /\ cc_size c = Some 12%Z
+  | _ => False
+  end.
+Proof. vm_compute. repeat split; reflexivity. Qed.
